@@ -118,7 +118,11 @@ class address(FieldType):
         self.val = addr_long(addr)
 
     def __eq__(self, b):
-        return addr_long(self) == addr_long(b)
+        try:
+            return addr_long(self) == addr_long(b)
+        except (TypeError, OSError, struct.error):
+            # not something that denotes an IPv4 address: let the other operand decide, two such objects are unequal
+            return NotImplemented
 
     def __str__(self):
         return addr_str(self.val)
